@@ -340,6 +340,35 @@ class Intervals:
                     # the result is only read after `assert(!overflow)`: no wrap-around happened
                     return meet(ty_range(last["ty"]), v) if v is not None else ty_range(last["ty"])
                 return (0, 1)
+        nd = [e for e in pl["proj"] if e["k"] != "deref"]
+        if len(nd) >= 3 and nd[0]["k"] == "downcast" and nd[0]["variant"] in ("Some", "Ok") and nd[1]["k"] == "field" and nd[1]["idx"] == 0 \
+                and all(e["k"] == "field" for e in nd[2:]):
+            # `((x as Some).0).k`: x is only ever assigned Some(..) / None literals: join over the payloads of the Some sites
+            ds = fn.whole_defs(pl["local"])
+            if ds and len(fn.defs().get(pl["local"], [])) == len(ds):
+                out, first, good = None, True, True
+                for kind, payload, bi, si, place in ds:
+                    if bi not in fn.cfg():
+                        continue
+                    rv = payload
+                    if kind != "stmt" or rv["k"] != "aggregate" or rv["kind"].get("agg") != "adt" or not (
+                            rv["kind"]["adt"].endswith("option::Option") or rv["kind"]["adt"].endswith("result::Result")):
+                        good = False
+                        break
+                    if rv["kind"]["variant"] != nd[0]["variant"]:
+                        continue
+                    cpl = op_place(rv["ops"][0]) if rv["ops"] else None
+                    if cpl is None:
+                        good = False
+                        break
+                    v = self.place(fn, {"local": cpl["local"], "proj": list(cpl["proj"]) + nd[2:]}, bi, depth + 1, seen)
+                    if v is None:
+                        good = False
+                        break
+                    out = v if first else join(out, v)
+                    first = False
+                if good and not first:
+                    return meet(ty_range(last["ty"]), out) if ty_range(last["ty"]) else out
         if last["k"] == "field" and len(pl["proj"]) >= 2 and pl["proj"][-2]["k"] == "downcast" and pl["proj"][-2]["variant"] == "Some" and len(pl["proj"]) == 2:
             ds = fn.whole_defs(pl["local"])
             if len(ds) == 1 and ds[0][0] == "call" and "iter::range::<impl" in callee_of(ds[0][1]) and callee_of(ds[0][1]).endswith("::next"):
